@@ -143,6 +143,9 @@ func H_C09_1_CalcBaseFee() {
 	default:
 		limit = ^uint64(0)
 	}
+	if limit/2 == 0 {
+		return // gas target 0 (MaxGas = 1): the EIP-1559 quotient is undefined; only "does not fail" is demanded
+	}
 	want := specNextBaseFee(b, usedToLimit, limit, minGP)
 	verif.Assert("eip1559-value", g.Cmp(want) == 0)
 	target := limit / 2
